@@ -29,7 +29,9 @@ def eval_doc(args):
             if fault == 'bad_text':
                 if len(t2) or t2.tag.endswith('name'): continue
                 t2.text = 'zz'
-            elif fault == 'extra_child': t2.insert(0, ET.Element('{urn:t}bogus'))
+            elif fault == 'extra_child':
+                # the damaged node is the inserted child itself: its siblings stay valid, whatever the model does after the break
+                t2.insert(0, ET.Element('{urn:t}bogus')); t2 = t2[0]
             elif fault == 'extra_attr': t2.set('bogus', '1')
             elif fault == 'drop_attr':
                 if 'code' not in t2.attrib: continue
@@ -79,7 +81,7 @@ def run(tier, seed, open_findings):
     for _ in range(n):
         k = rng.randrange(1, 4)
         docs.append('<t:r xmlns:t="urn:t" xmlns:xs="http://www.w3.org/2001/XMLSchema" xmlns:xsi="http://www.w3.org/2001/XMLSchema-instance">' + ''.join(
-            f'<t:item id="i{i}" code="{i}"><t:name>n</t:name><t:qty>1</t:qty>' + ('<t:kind>article</t:kind>' if (i + k) % 2 else '') + ('<t:val xsi:type="xs:int">5</t:val>' if (i + k) % 3 == 0 else '') + ('<t:mark m="1"/>' if (i + k) % 3 == 1 else '') + ''.join(f'<t:sub ref="i{rng.randrange(k)}" codeRef="{rng.randrange(k)}" uid="{10 * i + j_}"><t:leaf>1</t:leaf></t:sub>'
+            f'<t:item id="i{i}" code="{i}"><t:name>n</t:name><t:qty>1</t:qty>' + ('<t:kind>article</t:kind>' if (i + k) % 2 else '') + ('<t:val xsi:type="xs:int">5</t:val>' if (i + k) % 3 == 0 else '') + ('<t:mark m="1"/>' if (i + k) % 3 == 1 else '') + ('<t:optx><t:n>1</t:n><t:m>2</t:m></t:optx>' if (i + k) % 2 == 0 else '<t:opt/>' if i % 3 == 0 else '') + ''.join(f'<t:sub ref="i{rng.randrange(k)}" codeRef="{rng.randrange(k)}" uid="{10 * i + j_}"><t:leaf>1</t:leaf></t:sub>'
                                                                                       for j_ in range(rng.randrange(3))) + '</t:item>' for i in range(k)) + '</t:r>')
     jobs = [(ver, d) for d in docs for ver in ('1.0', '1.1')]
     res = pmap(eval_doc, jobs, chunk=1)
